@@ -1,7 +1,7 @@
 (* C02 — correspondence / property evaluation on histories observed on the
    implementation.  Executable only. *)
 From Coq Require Import List ZArith QArith Qabs Bool.
-From GZ Require Export Lib.CheckLib Lib.RollingWindow C02.Model.
+From GZ Require Export Lib.CheckLib Lib.RollingWindow C02.Model C02.Wrap.
 Import ListNotations.
 Open Scope Z_scope.
 
@@ -13,7 +13,7 @@ Inductive oobs :=
 | OR (done : bool) (fl am ae : Z).
     (* Pass / Fail: a promise existed; flying after; avgFlying after *)
 
-Record case := mkCase
+Record scase := mkCase
   { ccfg : config; ct0 : Z;
     csame : bool;   (* ShedderGroup.GetShedder returned the same shedder twice (true when not via a group) *)
     cnop : bool;    (* the constructor returned a nopShedder *)
@@ -83,7 +83,7 @@ Fixpoint agree_loop (s : state) (l : list (op * oobs)) : bool :=
       end && agree_loop s' l'
   end.
 
-Definition agrees (c : case) : bool :=
+Definition s_agrees (c : scase) : bool :=
   eqb (cnop c) (negb (cenabled (ccfg c))) && csame c
   && agree_loop (init (ccfg c) (ct0 c)) (cops c).
 
@@ -101,8 +101,11 @@ Record acc := mkAcc
     afl : Z;                 (* #granted - #resolutions *)
     aovers : list Z;         (* times of the Allows whose CPU reading was >= threshold *)
     ashed : bool;            (* an Allow was shed before *)
-    aavg : Q;                (* avgFlying observed after the previous operation *)
+    aavg : Q;                (* the moving average of flying, RECOMPUTED from the history (not the observed avgFlying) *)
     alast : Z }.             (* time of the previous clock reading *)
+
+(* the moving average, recomputed: every resolution folds the new in-flight count in *)
+Definition ref_avg (a : Q) (fl : Z) : Q := Qred (a * flyingBeta + inject_Z fl * (1 - flyingBeta))%Q.
 
 Definition grid (t0 iv t : Z) : Z := (t - t0) / iv.
 
@@ -183,7 +186,7 @@ Fixpoint prop_loop (excl : bool) (c : config) (t0 : Z) (mono : bool) (a : acc) (
                   (apass a)
                   (if shed then afl a else afl a + 1)
                   (if cthreshold c <=? c1 then now :: aovers a else aovers a)
-                  (ashed a || shed) (dyadic am ae) now) l'
+                  (ashed a || shed) (aavg a) now) l'
     | OPass id now, OR done fl am ae =>
       let st := prom_start id (aadm a) in
       let ok := match st with Some _ => done | None => negb done end in
@@ -194,14 +197,14 @@ Fixpoint prop_loop (excl : bool) (c : config) (t0 : Z) (mono : bool) (a : acc) (
                   (match st with
                    | Some start => if done then (grid t0 (bucket_duration c) now, ceil_ms (now - start)) :: apass a else apass a
                    | None => apass a end)
-                  fl' (aovers a) (ashed a) (dyadic am ae) now) l'
+                  fl' (aovers a) (ashed a) (if done then ref_avg (aavg a) fl' else aavg a) now) l'
     | OFail id, OR done fl am ae =>
       let st := prom_start id (aadm a) in
       let ok := match st with Some _ => done | None => negb done end in
       let fl' := if done then afl a - 1 else afl a in
       ok && (fl =? fl')
       && prop_loop excl c t0 mono
-           (mkAcc (aidx a + 1) (aadm a) (apass a) fl' (aovers a) (ashed a) (dyadic am ae) (alast a)) l'
+           (mkAcc (aidx a + 1) (aadm a) (apass a) fl' (aovers a) (ashed a) (if done then ref_avg (aavg a) fl' else aavg a) (alast a)) l'
     | _, _ => false
     end
   end.
@@ -209,7 +212,7 @@ Fixpoint prop_loop (excl : bool) (c : config) (t0 : Z) (mono : bool) (a : acc) (
 Definition never_shed (l : list (op * oobs)) : bool :=
   forallb (fun x => match snd x with OA shed _ _ _ _ _ => negb shed | _ => true end) l.
 
-Definition prop_gen (excl : bool) (c : case) : bool :=
+Definition prop_gen (excl : bool) (c : scase) : bool :=
   if cnop c then never_shed (cops c)
   else if cenabled (ccfg c) then
     csame c
@@ -217,11 +220,101 @@ Definition prop_gen (excl : bool) (c : case) : bool :=
                  (mkAcc 0 [] [] 0 [] false 0%Q (ct0 c)) (cops c)
   else false.   (* disabled, yet an adaptive shedder was built *)
 
+(* ------------------------------------------------------------------ *)
+(* wrappers (rest SheddingHandler, zrpc UnarySheddingInterceptor) and ShedderGroup *)
+
+Inductive wreq :=
+| WRest (v : verdict) (o : rest_outcome)
+| WRpc (v : verdict) (o : rpc_outcome).
+
+(* observed with a recording Shedder: handler runs, Allow / Pass / Fail calls, caller-visible
+   result, whether a panic reached the caller *)
+Inductive wobs := WO (runs allows passes fails : Z) (vis : visible) (panics : bool).
+
+Definition rpc_eqb (a b : rpc_outcome) : bool :=
+  match a, b with
+  | GOk, GOk | GErr, GErr | GDeadline, GDeadline | GWrappedDeadline, GWrappedDeadline
+  | GStatusDeadline, GStatusDeadline | GPanic, GPanic => true
+  | _, _ => false
+  end.
+
+Definition vis_eqb (a b : visible) : bool :=
+  match a, b with
+  | VisStatus x, VisStatus y => x =? y
+  | VisRpc x, VisRpc y => rpc_eqb x y
+  | VisExhausted, VisExhausted => true
+  | _, _ => false
+  end.
+
+Definition wrap_model (q : wreq) : wrap_result :=
+  match q with WRest v o => rest_wrap v o | WRpc v o => rpc_wrap v o end.
+
+Definition w_agrees (l : list (wreq * wobs)) : bool :=
+  forallb (fun x =>
+             let m := wrap_model (fst x) in
+             match snd x with
+             | WO runs allows passes fails vis pn =>
+               (runs =? wr_runs m) && (allows =? 1) && (passes =? wr_pass m) && (fails =? wr_fail m)
+               && vis_eqb vis (wr_visible m) && eqb pn (wr_panics m)
+             end) l.
+
+(* the wrapper contract, judged on the observation alone *)
+Definition w_prop_one (q : wreq) (ob : wobs) : bool :=
+  match ob with
+  | WO runs allows passes fails vis pn =>
+    (allows =? 1) &&
+    match q with
+    | WRest VShed _ =>
+      (runs =? 0) && (passes =? 0) && (fails =? 0) && vis_eqb vis (VisStatus 503) && negb pn
+    | WRpc VShed _ =>
+      (runs =? 0) && (passes =? 0) && (fails =? 0) && vis_eqb vis VisExhausted && negb pn
+    | WRest VGrant o =>
+      let over := last (ro_codes o) 200 =? 503 in
+      (runs =? 1) && (passes + fails =? 1) && (0 <=? passes) && (0 <=? fails)
+      && eqb (fails =? 1) over && eqb pn (ro_panics o)
+      && vis_eqb vis (VisStatus (hd 200 (ro_codes o)))
+    | WRpc VGrant o =>
+      let over := match o with GDeadline | GWrappedDeadline => true | _ => false end in
+      (runs =? 1) && (passes + fails =? 1) && (0 <=? passes) && (0 <=? fails)
+      && eqb (fails =? 1) over && eqb pn (rpc_eqb o GPanic)
+      && vis_eqb vis (VisRpc o)
+    end
+  end.
+
+Definition w_prop (l : list (wreq * wobs)) : bool := forallb (fun x => w_prop_one (fst x) (snd x)) l.
+
+(* ShedderGroup: per GetShedder(key)+Allow call, (index of the first call that returned the same
+   instance, in-flight count of that instance afterwards) *)
+Definition g_agrees (keys : list Z) (obs : list (Z * Z)) : bool := pairs_eqb (group_run [] keys) obs.
+
+Fixpoint g_counts (seen : list Z) (ids : list (Z * Z)) : bool :=
+  match ids with
+  | [] => true
+  | (i, fl) :: rest =>
+    (fl =? Z.of_nat (length (filter (Z.eqb i) (seen ++ [i])))) && g_counts (seen ++ [i]) rest
+  end.
+
+Definition g_prop (keys : list Z) (obs : list (Z * Z)) : bool :=
+  (Nat.eqb (length keys) (length obs)) &&
+  (let l := combine keys (map fst obs) in
+   forallb (fun p => forallb (fun q => eqb (fst p =? fst q) (snd p =? snd q)) l) l)
+  && g_counts [] obs.
+
+Inductive case :=
+| CShed (c : scase)
+| CWrap (l : list (wreq * wobs))
+| CGroup (keys : list Z) (obs : list (Z * Z)).
+
+Definition agrees (c : case) : bool :=
+  match c with CShed c => s_agrees c | CWrap l => w_agrees l | CGroup k o => g_agrees k o end.
+
 (* the property at full strength (every configuration) *)
-Definition prop_ok (c : case) : bool := prop_gen false c.
+Definition prop_ok (c : case) : bool :=
+  match c with CShed c => prop_gen false c | CWrap l => w_prop l | CGroup k o => g_prop k o end.
 (* the property with shed_when_saturated's excluding hypothesis (Props.shed_when_saturated);
    used only to recognise the known finding: prop_ok fails, prop_ok_excl holds *)
-Definition prop_ok_excl (c : case) : bool := prop_gen true c.
+Definition prop_ok_excl (c : case) : bool :=
+  match c with CShed c => prop_gen true c | CWrap l => w_prop l | CGroup k o => g_prop k o end.
 
 (* diagnostics: the model's own run *)
 Fixpoint model_loop (s : state) (ops : list op) : list (res * Z * Z * Z) :=
@@ -233,4 +326,9 @@ Fixpoint model_loop (s : state) (ops : list op) : list (res * Z * Z * Z) :=
     (r, flying s', max_pass s now, min_rt s now) :: model_loop s' ops'
   end.
 
-Definition model_obs (c : case) := model_loop (init (ccfg c) (ct0 c)) (map fst (cops c)).
+Definition model_obs (c : case) :=
+  match c with
+  | CShed c => (model_loop (init (ccfg c) (ct0 c)) (map fst (cops c)), [], [])
+  | CWrap l => ([], map (fun x => wrap_model (fst x)) l, [])
+  | CGroup k _ => ([], [], group_run [] k)
+  end.
